@@ -77,6 +77,7 @@ type pathCtx struct {
 	seq     int
 	asserts int
 	permute bool // symbolic map iteration order
+	permuteIn string // when non-empty: only in functions whose name contains this
 	steps   int64
 	vars    []*Term           // variables created on this path
 	mdl     map[string]uint64 // a model of the current PC, when known
